@@ -1596,10 +1596,8 @@ def mx2(m, run):
     def want_f(base):
         return [' '.join(str(i + offs[s] + base) for i in ids) for s in range(3) for ids in faces[s]]
 
-    def run_one(name, kw):
+    def run_one(name, kw, sk):
         cont, surfs = _mesh_container(counts, faces)
-        sk = SK(m, ab)
-        sk.text = True
         out = sk.call(m.func('exchange.' + name), [cont], dict(kw))
         if not isinstance(out, str):
             raise Violation('MX2', 'returns %r, not text' % (type(out).__name__,))
@@ -1615,9 +1613,15 @@ def mx2(m, run):
 
     for name, kw, fmt in (('export_obj_str', {'parametric_vertices': True}, 'obj'), ('export_off_str', {}, 'off'), ('export_stl_str', {'binary': False}, 'stl')):
         key = 'exchange.%s :: container of three surfaces with %s vertices' % (name, counts)
-        why = None
-        try:
-            lines, surfs = run_one(name, kw)
+
+        def mk_sk():
+            sk_ = SK(m, ab)
+            sk_.text = True
+            return sk_
+
+        def scenario(sk, name=name, kw=kw, fmt=fmt):
+            why = None
+            lines, surfs = run_one(name, kw, sk)
             if fmt == 'obj':
                 v = [l[2:] for l in lines if l.startswith('v ')]
                 vp = [l[3:] for l in lines if l.startswith('vp ')]
@@ -1653,10 +1657,13 @@ def mx2(m, run):
                     if (srf._a['sample_size_u'], srf._a['sample_size_v']) != (5, 5):
                         why = 'surface %d is tessellated with sample sizes %r, the container has (5, 5) per direction' % (s, (srf._a['sample_size_u'], srf._a['sample_size_v']))
                         break
-        except Violation as v:
-            why = '%s %s' % (v.msg, v.where())
+
+            return why
+        try:
+            why = forked(mk_sk, scenario, key)
         except Unsupported as ex:
             raise AnalysisError('%s: interpreter met an unsupported construct: %s' % (key, ex))
+
         run.ob('MX2.mesh-text-parses-back', key, why is None, 'every vertex once in surface order; faces refer to the vertices of their own surface; counts declared' if why is None else why,
                'geomdl/exchange.py:%d in exchange.%s' % (m.func('exchange.' + name).node.lineno, name))
 
@@ -3538,11 +3545,15 @@ def evx(m, run):
             ab[('linalg', 'linspace')] = Py(linspace, 'linspace')
             ab[('helpers', 'find_spans')] = Py(find_spans, 'find_spans')
             ab[('helpers', 'basis_functions')] = Py(basis_functions, 'basis_functions')
-            sk = SK(m, ab)
-            sk.exact = True
             key = 'evaluators.%s.evaluate :: degrees %s, net %s, samples %s' % (cls, degs, sizes, samples)
-            why = None
-            try:
+
+            def mk_sk(ab=ab):
+                sk_ = SK(m, ab)
+                sk_.exact = True
+                return sk_
+
+            def scenario(sk):
+                why = None
                 kw = {'start': start[0], 'stop': stop[0]} if pdim == 1 else {'start': list(start), 'stop': list(stop)}
                 out = sk.call(fi, [evaluator(cls, [0]), dd], kw)
                 nsamp = 1
@@ -3575,13 +3586,40 @@ def evx(m, run):
                                 break
                         if why:
                             break
-            except Violation as v:
-                why = '%s %s' % (v.msg, v.where())
+                return why
+            try:
+                why = forked(mk_sk, scenario, key)
             except Unsupported as ex:
                 raise AnalysisError('%s: interpreter met an unsupported construct: %s' % (key, ex))
+
             run.ob('EVX.point-evaluation-exact', key, why is None, 'every sample is the tensor-product sum%s, listed u-major' % (' over the weight sum' if rat else '') if why is None else why,
                    'geomdl/evaluators.py:%d in %s' % (fi.node.lineno, fi.key))
 
+
+
+def forked(make_sk, scenario, key, max_paths=96):
+    """runs scenario(sk) -> None | reason (it may raise Violation) on a fresh interpreter from make_sk() for *both* outcomes of every
+    comparison the abstraction cannot decide (typically a symbolic value against a threshold the code under analysis introduces): the
+    scenario has to hold on every such path, since the symbolic values stand for arbitrary reals.  -> None, or the reason of the first
+    failing path together with the comparisons that lead to it"""
+    from .skel import explore
+
+    def call(prefix):
+        sk = make_sk()
+        sk.decisions = list(prefix)
+        try:
+            why = scenario(sk)
+        except Violation as v:
+            why = '%s %s' % (v.msg, v.where())
+        if why and sk.fork_log:
+            why += '   [on the path where ' + ', '.join('`%s` is %s' % (t, 'true' if r else 'false') for t, r in sk.fork_log[:4]) + (' ...' if len(sk.fork_log) > 4 else '') + ']'
+        return (('FORK', why) if why else None), sk.trace
+    n, first, trunc = explore(call, max_paths, stop_on_failure=True)
+    if first is not None:
+        return first[1]
+    if trunc:
+        raise AnalysisError('%s: more than %d paths through comparisons of symbolic values with thresholds' % (key, max_paths))
+    return None
 
 # ====================================================================================== C03: basis functions as exact polynomials
 def bf3(m, run):
@@ -4517,12 +4555,16 @@ def jr2(m, run, rule='JR2.dictionary-round-trip-on-real-classes'):
             total *= s_
         ab = dict(STD_ABSTRACTED)
         ab[('knotvector', 'normalize')] = Py(lambda sk, node, kv, *a, **k: [Ord(x.rank) for x in kv], 'knotvector.normalize')
-        sk = SK(m, ab)
-        sk.exact = True
-        sk.construct = True
         key = '_exchange.export_dict_%s -> import_dict_%s' % (tag, tag)
-        why = None
-        try:
+
+        def mk_sk(ab=ab):
+            sk_ = SK(m, ab)
+            sk_.exact = True
+            sk_.construct = True
+            return sk_
+
+        def scenario(sk, tag=tag, cname=cname, degs=degs, sizes=sizes, mod=mod, pdim=pdim, total=total, key=key):
+            why = None
             src = sk.apply(('class', (mod, cname)), [], {}, None)
             # (a B-spline shape is exported without weights and comes back as a rational shape with unit weights)
             Pw = [[Sym('P%d_%d' % (i, c)) for c in range(4)] for i in range(total)] if mod == 'NURBS' else [[Sym('P%d_%d' % (i, c)) for c in range(3)] + [Sym(Poly.const(1))] for i in range(total)]
@@ -4628,10 +4670,13 @@ def jr2(m, run, rule='JR2.dictionary-round-trip-on-real-classes'):
                         da, db = getp(src, 'delta'), getp(back, 'delta')
                         if da != db:
                             why = 'delta comes back as %r, exported %r (the sampling density is part of what the format carries)' % (db, da)
-        except Violation as v:
-            why = '%s %s' % (v.msg, v.where())
+
+            return why
+        try:
+            why = forked(mk_sk, scenario, key)
         except Unsupported as ex:
             raise AnalysisError('%s: interpreter met an unsupported construct: %s' % (key, ex))
+
         run.ob(rule, key + ' :: %s.%s' % (mod, cname), why is None, 'degrees, sizes, knots, homogeneous points (exact), delta, id come back unchanged' if why is None else why,
                'geomdl/_exchange.py in _exchange.export_dict_%s / import_dict_%s' % (tag, tag))
 
